@@ -639,8 +639,10 @@ class Renderer:
             return self.body(n.body, sc)
         if isinstance(n, nodes.Assign):
             v = self.eval(n.node, scope)
-            if isinstance(v, Segs):
-                v = v.text() if v.is_const() else Sym(self.canon_expr(n.node, scope))
+            if isinstance(v, Segs) and v.is_const():
+                v = v.text()
+            # (a non-constant rendering - e.g. the output of a macro call - stays a Segs value: printing the variable later emits the same
+            #  segments, with the same holes, as printing the expression in place)
             if isinstance(n.target, nodes.NSRef):
                 ns = scope.lookup(n.target.name)
                 if isinstance(ns, NS):
